@@ -36,6 +36,7 @@ struct CycleInfo {   // per update/react window, filled by walkReports
 	bool valid = false;
 	Reports atPlanStep;          // outstanding reports when the plan step ran
 	bool failCalled = false;     // any fail() in this cycle's phase callbacks
+	bool succCalled = false;     // any succeed() in this cycle's phase callbacks
 	bool selfSucceed = false;    // the active state itself called succeed() for itself in this cycle
 	bool selfFail = false;       // the active state itself called fail() for itself in a phase callback of this cycle
 	bool everAppended = false;
@@ -55,14 +56,13 @@ static std::vector<CycleInfo> walkReports(const Trace& t, const Analysis& A) {
 		if (w.type == WT_OP && w.code == OP_COPY && t.ev[w.b].inst == 2) r = R[t.ev[w.b].a % 3];
 		const bool cycle = w.type == WT_OP && (w.code == OP_UPDATE || w.code == OP_REACT);
 		CycleInfo ci; ci.valid = cycle && w.complete && !w.aborted;
-		bool stepDone = false;
+		bool stepDone = false, outcomeCleared = false;
 		if (w.type == WT_OP && (w.code == OP_SUCCEED || w.code == OP_FAIL)) {
 			const Ev& b = t.ev[w.b];
 			if (w.code == OP_SUCCEED) { r.succS |= bit(b.a); r.succP |= bit(b.a); } else { r.failS |= bit(b.a); r.failP |= bit(b.a); }
 		}
 		if (w.type == WT_OP && w.code == OP_PLAN_CLEAR) r.clearAll();
 		if (w.type == WT_OP && (w.code == OP_LOAD)) { r.clearAll(); }
-		if (w.type == WT_OP && (w.code == OP_ENTER)) { r = Reports{}; }
 		for (uint32_t i = w.b; i < w.e; ++i) {
 			const Ev& e = t.ev[i];
 			if (e.inst != w.inst) continue;
@@ -72,11 +72,17 @@ static std::vector<CycleInfo> walkReports(const Trace& t, const Analysis& A) {
 				// consumption by firing
 				for (const TaskV& q : w.plan.fired) { r.succS &= ~bit(q.origin); r.succP &= ~bit(q.origin); }
 			}
+			// a plan outcome clears the plan and every report when its callback returns (also the hidden outcome of headless machines)
+			if (cycle && w.plan.outcome && !outcomeCleared) {
+				const bool own = i <= w.plan.outcomeEv || e.kind == EV_ACT || e.kind == EV_LOG || (e.kind == EV_NOTE && (e.method == NOTE_AFTER || e.method == NOTE_APPEND_RESULT)) || (e.kind == EV_CB && isOutcome(e.method));
+				if (w.plan.outcome == 3 ? i >= w.plan.postEv : (i > w.plan.outcomeEv && !own)) { outcomeCleared = true; r.clearAll(); }
+			}
 			if (e.kind == EV_ACT) {
 				const bool inPhase = cycle && i < w.phaseEnd;
 				switch (e.method) {
 				case ACT_SUCCEED_SELF: case ACT_SUCCEED_ID:
 					r.succS |= bit(e.a); r.succP |= bit(e.a);
+					if (inPhase) ci.succCalled = true;
 					if (inPhase && e.state == w.activeBefore && e.a == w.activeBefore) ci.selfSucceed = true;
 					break;
 				case ACT_FAIL_SELF: case ACT_FAIL_ID:
@@ -92,11 +98,10 @@ static std::vector<CycleInfo> walkReports(const Trace& t, const Analysis& A) {
 			if (e.kind == EV_CB && e.who == WHO_SELF) {
 				if (e.method == M_EXIT && e.state != NOID) { r.succS &= ~bit(e.state); r.failS &= ~bit(e.state); }
 				if (e.method == M_EXIT && e.state == NOID) { r = Reports{}; }   // deactivation
-				if (e.method == M_ENTER && e.state == NOID) { r = Reports{}; }  // activation
 			}
 			if (e.kind == EV_NOTE && e.method == NOTE_AFTER && isOutcome(e.d)) { /* cleared when the outcome callback returns */ }
 		}
-		if (cycle && w.plan.outcome) r.clearAll();   // plan outcome clears the plan and all reports
+		if (cycle && w.plan.outcome && !outcomeCleared) r.clearAll();
 		if (!t.info.head && (w.type == WT_TEARDOWN || (w.type == WT_OP && w.code == OP_EXIT))) r = Reports{};
 		if (w.type == WT_TEARDOWN) r = Reports{};
 		out[wi] = ci;
@@ -126,13 +131,15 @@ void c08(const Trace& t, const Analysis& A, Verdict& V) {
 		if (!p.present) continue;
 		const CycleInfo& c = ci[wi];
 		const uint8_t active = w.activeBefore;
+		// headless machine whose plan emptied while a failure was around: a hidden planFailed and "every task fired" cannot be told apart
+		if (!f.head && !p.outcome && !p.pre.empty() && p.post.empty() && (c.failCalled || c.atPlanStep.failP)) continue;
 		if (!p.outcome) {
 			if (!p.postIsSubseq) { V.add(8, p.postEv, F("after the plan step the plan is %s, not an in-order remainder of %s", seqStr(p.post).c_str(), seqStr(p.pre).c_str())); continue; }
 			// necessary conditions for every fired task
-			size_t j = 0;
+			std::vector<TaskV> rem; std::vector<char> mask;
+			subseqDiff(p.pre, p.post, rem, &mask);
 			for (size_t k = 0; k < p.pre.size(); ++k) {
-				const bool fired = !(j < p.post.size() && p.pre[k] == p.post[j]);
-				if (!fired) { ++j; continue; }
+				if (!mask[k]) continue;
 				const TaskV& q = p.pre[k];
 				if (q.origin != active) V.add(8, p.postEv, F("task %u>%u fired while s%d is active", q.origin, q.dest, sidOf(active)));
 				if (!(c.atPlanStep.succS & bit(q.origin))) V.add(8, p.postEv, F("task %u>%u fired without an outstanding success report for s%u", q.origin, q.dest, q.origin));
@@ -178,10 +185,10 @@ void c09(const Trace& t, const Analysis& A, Verdict& V) {
 		if (p.outcome) {
 			if (!c.everAppended) V.add(9, p.outcomeEv, F("%s delivered although no task was ever added since activation (fill=0x%02x)", p.outcome == 1 ? "planSucceeded" : "planFailed", f.fill));
 			if (p.outcome == 2) {
-				if (c.atPlanStep.failS == 0) V.add(9, p.outcomeEv, "planFailed delivered without an outstanding failure report");
+				if (c.atPlanStep.failS == 0 && !c.failCalled) V.add(9, p.outcomeEv, "planFailed delivered in a cycle without any outstanding failure report");
 				if (!sameSeq(p.pre, snap(t, t.ev[p.outcomeEv]))) V.add(9, p.outcomeEv, "a task fired in a cycle that delivered planFailed");
 			} else {
-				if (c.atPlanStep.succS == 0) V.add(9, p.outcomeEv, "planSucceeded delivered without an outstanding success report");
+				if (c.atPlanStep.succS == 0 && !c.succCalled) V.add(9, p.outcomeEv, "planSucceeded delivered in a cycle without any outstanding success report");
 				if (!p.pre.empty()) V.add(9, p.outcomeEv, F("planSucceeded delivered while tasks remain: %s", seqStr(p.pre).c_str()));
 			}
 			// after the callback returns the plan is empty
@@ -195,7 +202,7 @@ void c09(const Trace& t, const Analysis& A, Verdict& V) {
 			}
 		}
 		// sufficiency for failure
-		if (!p.pre.empty() && c.selfFail && p.outcome != 2) V.add(9, p.postEv, F("plan %s is non-empty and the active state s%d reported failure, but planFailed was not delivered in this cycle", seqStr(p.pre).c_str(), sidOf(w.activeBefore)));
+		if (!p.pre.empty() && c.selfFail && (c.atPlanStep.failS & bit(w.activeBefore)) && p.outcome != 2) V.add(9, p.postEv, F("plan %s is non-empty and the active state s%d reported failure, but planFailed was not delivered in this cycle", seqStr(p.pre).c_str(), sidOf(w.activeBefore)));
 	}
 }
 
@@ -241,6 +248,7 @@ void c10(const Trace& t, const Analysis& A, Verdict& V) {
 		const std::vector<TaskV> obs = snap(t, e);
 		// behaviour owned by other properties: re-synchronise the model from the observation
 		bool resync = !m.known;
+		if (w && w->type == WT_OP && (w->code == OP_UPDATE || w->code == OP_REACT) && w->plan.present && w->plan.outcome == 3 && i == w->plan.postEv) resync = true;   // hidden outcome cleared the plan
 		if (w && w->type == WT_OP && (w->code == OP_UPDATE || w->code == OP_REACT) && w->plan.present && !w->plan.outcome && i == w->plan.postEv) {
 			std::vector<TaskV> rem;   // consumption by firing: what is left must be an in-order remainder
 			if (m.known && !subseqDiff(m.v, obs, rem)) V.add(10, i, F("after the plan step the plan %s is not an in-order remainder of %s", seqStr(obs).c_str(), seqStr(m.v).c_str()));
@@ -361,7 +369,7 @@ void c16(const Trace& t, const Analysis& A, Verdict& V) {
 				if (!ok) V.add(16, i, "task-status record without a succeed()/fail() call at this moment");
 			} else if (e.method == LOG_METHOD) {
 				// must be immediately followed by a delivery to that state of that method, unless the state defines no callback
-				const bool bare = isBare(f, e.a);
+				const bool bare = isBare(f, e.a) || (e.a == NOID && !f.head);   // a headless root is a state that defines no callback
 				const bool next = i + 1 < t.n && t.ev[i + 1].kind == EV_CB && t.ev[i + 1].inst == e.inst && t.ev[i + 1].state == e.a && t.ev[i + 1].method == e.b;
 				if (!next) {
 					const bool reactFamily = e.b == M_PRE_REACT || e.b == M_REACT || e.b == M_POST_REACT || e.b == M_QUERY;
